@@ -50,6 +50,21 @@ Theorem C15_spec_subscribe_local : forall sp m ty r m' ty',
 Proof. intros sp m ty r m' ty'. split; [exact (sget_after_sub sp m ty r) | exact (sget_other_sub sp m ty _ m' ty')]. Qed.
 Print Assumptions C15_spec_subscribe_local.
 
+(* "exactly once" and "no receiver that has unsubscribed", read off the specification's lists: a list without
+   repetition stays so when a receiver not in it is subscribed and when any receiver is unsubscribed; after the
+   unsubscription the receiver is no longer in the list, and everybody else still is *)
+Theorem C15_spec_exactly_once : forall (l : list recv) r,
+  NoDup l ->
+  (~ In r l -> NoDup (l ++ [r])) /\
+  NoDup (remove_first l r) /\ ~ In r (remove_first l r) /\
+  (forall x, x <> r -> In x l -> In x (remove_first l r)).
+Proof.
+  intros l r Hn. split; [exact (sub_fresh_nodup l r Hn)|].
+  split; [exact (proj1 (remove_first_nodup l r Hn))|]. split; [exact (proj2 (remove_first_nodup l r Hn))|].
+  exact (remove_first_keeps l r).
+Qed.
+Print Assumptions C15_spec_exactly_once.
+
 Example C15_run_example :
   let ops := [ENewMgr; ESub 0 0 0; ESub 0 1 1; ENewMgr; ESub 1 1 2; ESub 1 0 3; ESub 1 1 4; EUnsub 1 1 2;
               EPost 1 1; EDelMgr 0; EUnsub 0 0 0; EPost 1 0] in
